@@ -5,6 +5,7 @@ import NanoVerif.Proofs.TunerSurrogateStep
 import NanoVerif.Proofs.TunerSpaceMake
 import NanoVerif.Proofs.TunerSpaceLog
 import NanoVerif.Proofs.TunerClosestTrial
+import NanoVerif.Proofs.TunerGenWalkLen
 import Mathlib.Data.Int.Order.Basic
 import Mathlib.Tactic.NormNum
 /-!
@@ -47,6 +48,33 @@ import Mathlib.Tactic.NormNum
   | machine/params.h `params_t` | outside | a holder of tuner / solver / splitter / logger (clone semantics C19); `log` is logging |
   | core/combinatorial.h `combinatorial_iterator_t` | modelled for the counts `(3, …, 3)` the tuners use | `combos3`; other counts outside |
   | tuner/step.h `tuner_step_t`, `operator<` | modelled | `Step`, `SortSpec` (by value only), `step_order_strict_weak` |
+
+  ## Translated fragments (translation round): regenerated from /repo on every check into `Gen/TunerSpace.lean` by
+  tools/props/c13_translate.py; `Proofs/TunerGen.lean` proves the model text equal to the generated text (obligations `Tuner.model_…_is_generated`)
+
+  | C++ | generated (`Gen.TunerSpace.`) | theorem (`Tuner.`) |
+  |---|---|---|
+  | space.h `enum class type` | `SpaceType` | (`SpaceKind.toGen`) |
+  | space.cpp constructor: the four `critical`s in source order (`std::is_sorted`, `std::unique != end`, `*std::min_element` as parameters) | `ctorThrows` | `model_make_is_generated` |
+  | space.cpp `to_surrogate` (range guard + `switch`) | `toSurrogate` | `model_toSurrogate_is_generated` |
+  | space.cpp `from_surrogate` | `fromSurrogate` (`gclamp`) | `model_fromSurrogate_is_generated` |
+  | space.cpp `closest_grid_point_from_surrogate` (initial values, loop body, returned variable) | `closestGridPointInit/Step`, `closestGridPoint` | `model_closestScan_is_generated`, `model_closestGridPoint_is_generated` |
+  | space.cpp `closest_grid_value_from_surrogate` | `closestGridValue` | `model_closestGridValue_is_generated` |
+  | util.cpp `make_min_igrid` / `make_max_igrid` / `make_avg_igrid` (fill value, `size - 1`, `size / 2`) | `minIgridCoord`, `maxIgridCoord`, `avgIgridCoord` | `model_minOf_is_generated`, `model_maxOf_is_generated`, `model_avgOf_is_generated` |
+  | util.cpp `evaluate`: the equality test of the inner lambda, the condition of the `critical` (parsed); `find_if != end` / `remove_if + erase` / empty ⇒ `return false` / call back / `emplace_back` / `sort` / `return size != before` (recognised as whole statements in this order, else the translation is broken) | `evaluateSame`, `evaluateRejects`, `evaluateKnown`, `evaluateFresh` | `model_evaluate_is_generated` |
+  | util.cpp `local_search`: trials per space, element-wise update, `continue` test | `trialsPerSpace`, `localSearchCoord`, `localSearchOutside` | `model_combos_is_generated`, `model_addScaled_is_generated`, `model_inGrid_is_generated` |
+  | tuner.cpp `optimize`: `critical(spaces.empty(), …)`, then evaluate `avg_igrid` / coarse loop / `do_optimize` / `return steps` (order checked) | `optimizeRefuses` | `model_tunerOptimize_is_generated` |
+  | tuner.cpp `optimize`: `for (radius = 2; !empty && size < max_evals / 2; radius *= 2)` | `coarseRadius0`, `coarseContinue`, `coarseNextRadius` | `model_optimize_is_generated`, `model_step_coarse_is_generated` |
+  | local.cpp / surrogate.cpp `do_optimize`: loop condition, radius, centre argument | `localContinue`, `localRadius`, `surrogateContinue`, `surrogateRadius` | `model_step_main_is_generated`, `surrogate_header_is_local` |
+  | surrogate.cpp fit ctor: `(p.cols() + 1) * (p.cols() + 2) / 2`, feature-map loop nest | `quadLen`, `featConst`, `featPairIdx`, `featTerm` | `model_quadLen_is_generated`, `model_featPairIdx_is_generated`, `model_quadTerms_is_generated` |
+  | surrogate.cpp `quadratic_surrogate_t` ctor: dimension, asserts | `quadDim`, `QuadSizeOk` | `model_quadDim_is_generated`, `model_quadSize_is_generated` |
+  | surrogate.cpp `quadratic_surrogate_t::do_vgrad`: both loop nests, `k` start values, per-pair updates | `gradK0`, `gradLin`, `gradPairIdx`, `gradTerm`, `valueInitIdx`, `valueK0`, `valueLin`, `valuePairIdx`, `valueTerm` | `model_gradPairIdx_is_generated`, `model_valuePairIdx_is_generated`, `model_quadGrad_is_generated`, `model_quadValue_is_generated` |
+  | surrogate.cpp `do_vgrad`: the walk `m_model(k++)` itself, `k` threaded through the loops (value: both loops; gradient: the second-order nest) | `quadValueWalk`, `quadGradWalk2` | `walk_eq_zip`, `model_quadValue_is_generated_walk`, `model_quadGrad_is_generated_walk` (hypothesis: the walk stays inside the coefficient vector, `1 + n + #pairs ≤ m.size()`), `two_mul_pairIdx_length`, `model_quadValue_walk_of_assert`, `model_quadGrad_walk_of_assert` (hypothesis: the constructor's assert `m.size() = quadLen n`) |
+  | machine/result.cpp `value(trial, …)`: accumulator, `sum_mean += stats.m_mean` over every fold, `/ static_cast<scalar_t>(folds())` | `trialValueInit`, `trialValueStep`, `trialValueFinish` | `model_trialValue_is_generated` |
+  | machine/result.cpp `optimum_trial`, `closest_trial` (initial values, loop body, returned variable) | `optimumTrialInit/Step`, `optimumTrial`, `closestTrialInit/Step`, `closestTrial` | `model_optimumTrial_is_generated`, `model_closestTrial_is_generated` |
+  | machine/tune.cpp `thread_callback`: `index % folds`, `index / folds`, `store(old_trials + trial, fold, …)`, `closest_trial(params, old_trials)`, `tpool.map(folds * new_trials, …)` | `tuneTrial`, `tuneFold`, `tuneStoreTrial`, `tuneStoreFold`, `tuneClosestMax`, `tuneTasks` | `model_threadCallback_is_generated`, `model_tune_counts_is_generated` |
+  Hand-written only: `std::sort` inside `evaluate` (`SortSpec`), `map_to_grid`, `make_min` / `make_max` and the STL algorithms
+  inside the constructor of `param_space_t` (`minElem`, `maxElem`, `isSortedL`, `hasAdjEq`), `fit_t::do_vgrad` (Eigen products + loss), `combinatorial_iterator_t`, the rest of machine/tune.cpp (`tuner_callback`, splitter, pool) and machine/result.cpp (`add`, `store`, `stats`, `values`: tensor bookkeeping).
 -/
 namespace NanoVerif.C13
 open NanoVerif.Tuner
@@ -603,6 +631,15 @@ example : closestScan (100 : Int) [0, 2, 4] 3 = 1 ∧ closestScan (100 : Int) [0
 example : centreOf (100 : Int) [⟨.log10, [1, 2, 3], 1, 3⟩, ⟨.log10, [1, 2], 1, 2⟩] [5, 1] = some [2, 0] := by decide
 example : ∃ s : Space ℝ, Space.make? (1 / 4) .log10 [1, 10] = some s :=
   ⟨⟨.log10, [1, 10], 1, 10⟩, by norm_num [Space.make?, minElem, maxElem, isSortedL, hasAdjEq]⟩
+-- the generated definitions compute (kernel-evaluated over ℤ): the regenerated loop body / loop nests give the model's answers
+example : Gen.TunerSpace.closestGridPoint (fun v : Int => v) 100 .log10 0 4 [0, 2, 4] 3 = some 1 ∧
+    Gen.TunerSpace.toSurrogate (fun v : Int => v) .linear 0 4 5 = none ∧
+    Gen.TunerSpace.valuePairIdx 3 = [(0, 0), (0, 1), (0, 2), (1, 1), (1, 2), (2, 2)] ∧
+    Gen.TunerSpace.localSearchOutside 3 0 2 = true ∧ Gen.TunerSpace.localSearchOutside 2 0 2 = false := by decide
+-- the hypothesis of the walk theorems is satisfiable (6 coefficients, 2 variables), and the threaded walk computes
+example : 1 + [(1 : Int), -1].length + (pairIdx [(1 : Int), -1].length).length ≤ [(1 : Int), 2, 3, 4, 5, 6].length ∧
+    Gen.TunerSpace.quadValueWalk [(1 : Int), 2, 3, 4, 5, 6] [1, -1] = 5 ∧
+    [(1 : Int), 2, 3, 4, 5, 6].length = quadLen [(1 : Int), -1].length := by decide
 -- warm starts: the row of the batch in flight (distance 0) is not looked at
 example : Tune.closestTrial (100 : Int) (fun a b => (a - b) * (a - b)) [5, 1, 9, 2] 2 3 = 1 := by decide
 example : (Step.mk [0] (1 : Int)).value < (Step.mk [1] (2 : Int)).value := by decide
